@@ -1,3 +1,4 @@
+//go:build verif
 // +build verif
 
 package raft
@@ -96,3 +97,212 @@ func VerifSetRandomizedElectionTimeout(n Node, ticks int) {
 
 // VerifQuorum is r.quorum() of the node.
 func VerifQuorum(n Node) int { return verifRaft(n).quorum() }
+
+// ---------------------------------------------------------------------------------------------
+// raft LOG layer (protocol `raftlog`): the unexported raftLog on a *MemoryStorage, method by method.
+
+// VerifLog is an unexported *raftLog together with the *MemoryStorage it reads.
+type VerifLog struct {
+	l  *raftLog
+	ms *MemoryStorage
+}
+
+// VerifNewLog is newLogWithSize(ms, logger, maxNextEntsSize).
+func VerifNewLog(ms *MemoryStorage, logger Logger, maxNextEntsSize uint64) *VerifLog {
+	return &VerifLog{l: newLogWithSize(ms, logger, maxNextEntsSize), ms: ms}
+}
+
+// VerifLogOf is the raftLog of a Node whose Storage is ms.
+func VerifLogOf(n Node, ms *MemoryStorage) *VerifLog {
+	return &VerifLog{l: verifRaft(n).raftLog, ms: ms}
+}
+
+func (v *VerifLog) FirstIndex() uint64          { return v.l.firstIndex() }
+func (v *VerifLog) LastIndex() uint64           { return v.l.lastIndex() }
+func (v *VerifLog) Committed() uint64           { return v.l.committed }
+func (v *VerifLog) Applied() uint64             { return v.l.applied }
+func (v *VerifLog) UnstableOffset() uint64      { return v.l.unstable.offset }
+func (v *VerifLog) UnstableRaw() []pb.Entry     { return append([]pb.Entry{}, v.l.unstable.entries...) }
+func (v *VerifLog) UnstableEntries() []pb.Entry { return v.l.unstableEntries() }
+func (v *VerifLog) UnstableSnap() (uint64, uint64, bool) {
+	if s := v.l.unstable.snapshot; s != nil {
+		return s.Metadata.Index, s.Metadata.Term, true
+	}
+	return 0, 0, false
+}
+func (v *VerifLog) Term(i uint64) (uint64, error)    { return v.l.term(i) }
+func (v *VerifLog) LastTerm() uint64                 { return v.l.lastTerm() }
+func (v *VerifLog) MatchTerm(i, t uint64) bool       { return v.l.matchTerm(i, t) }
+func (v *VerifLog) FindConflict(e []pb.Entry) uint64 { return v.l.findConflict(e) }
+func (v *VerifLog) MaybeAppend(index, logTerm, committed uint64, ents []pb.Entry) (uint64, bool) {
+	return v.l.maybeAppend(index, logTerm, committed, ents...)
+}
+func (v *VerifLog) Append(ents []pb.Entry) uint64 { return v.l.append(ents...) }
+func (v *VerifLog) CommitTo(i uint64)             { v.l.commitTo(i) }
+func (v *VerifLog) AppliedTo(i uint64)            { v.l.appliedTo(i) }
+func (v *VerifLog) StableTo(i, t uint64)          { v.l.stableTo(i, t) }
+func (v *VerifLog) StableSnapTo(i uint64)         { v.l.stableSnapTo(i) }
+func (v *VerifLog) Restore(index, term uint64) {
+	v.l.restore(pb.Snapshot{Metadata: pb.SnapshotMetadata{Index: index, Term: term}})
+}
+func (v *VerifLog) Slice(lo, hi, maxSize uint64) ([]pb.Entry, error) {
+	return v.l.slice(lo, hi, maxSize)
+}
+func (v *VerifLog) Entries(i, maxSize uint64) ([]pb.Entry, error) { return v.l.entries(i, maxSize) }
+func (v *VerifLog) NextEnts() []pb.Entry                          { return v.l.nextEnts() }
+func (v *VerifLog) HasNextEnts() bool                             { return v.l.hasNextEnts() }
+func (v *VerifLog) HasMoreNextEnts(a uint64) bool                 { return v.l.hasMoreNextEnts(a) }
+func (v *VerifLog) HasPendingSnapshot() bool                      { return v.l.hasPendingSnapshot() }
+func (v *VerifLog) IsUpToDate(lasti, term uint64) bool            { return v.l.isUpToDate(lasti, term) }
+func (v *VerifLog) MaybeCommit(maxIndex, term uint64) bool        { return v.l.maybeCommit(maxIndex, term) }
+func (v *VerifLog) Snapshot() (uint64, uint64) {
+	s, err := v.l.snapshot()
+	if err != nil {
+		panic("verif: raftLog.snapshot: " + err.Error())
+	}
+	return s.Metadata.Index, s.Metadata.Term
+}
+
+// VerifMemEnts is a copy of ms.ents (the dummy entry first); VerifMemSnap the snapshot's (Index, Term).
+func VerifMemEnts(ms *MemoryStorage) []pb.Entry { return append([]pb.Entry{}, ms.ents...) }
+func VerifMemSnap(ms *MemoryStorage) (uint64, uint64) {
+	return ms.snapshot.Metadata.Index, ms.snapshot.Metadata.Term
+}
+
+// VerifLogSaved is a deep copy of everything the log layer can change (used by the harness to roll
+// back after a panic, which in production ends the process).
+type VerifLogSaved struct {
+	ents      []pb.Entry
+	snap      pb.Snapshot
+	uents     []pb.Entry
+	usnap     *pb.Snapshot
+	off       uint64
+	committed uint64
+	applied   uint64
+}
+
+func (v *VerifLog) Save() *VerifLogSaved {
+	s := &VerifLogSaved{ents: append([]pb.Entry{}, v.ms.ents...), snap: v.ms.snapshot,
+		off: v.l.unstable.offset, committed: v.l.committed, applied: v.l.applied}
+	if v.l.unstable.entries != nil {
+		s.uents = append([]pb.Entry{}, v.l.unstable.entries...)
+	}
+	if v.l.unstable.snapshot != nil {
+		c := *v.l.unstable.snapshot
+		s.usnap = &c
+	}
+	return s
+}
+
+func (v *VerifLog) Load(s *VerifLogSaved) {
+	v.ms.ents = append([]pb.Entry{}, s.ents...)
+	v.ms.snapshot = s.snap
+	v.l.unstable.offset, v.l.committed, v.l.applied = s.off, s.committed, s.applied
+	v.l.unstable.entries = nil
+	if s.uents != nil {
+		v.l.unstable.entries = append([]pb.Entry{}, s.uents...)
+	}
+	v.l.unstable.snapshot = nil
+	if s.usnap != nil {
+		c := *s.usnap
+		v.l.unstable.snapshot = &c
+	}
+}
+
+// node-driver bookkeeping of the fork (StepNode / Advance)
+type VerifNodeView struct {
+	NeedAdvance           bool
+	LastSteppedIndex      uint64
+	HavePrevLastUnstablei bool
+	PrevLastUnstablei     uint64
+	PrevLastUnstablet     uint64
+	PrevSnapi             uint64
+	PrevHardCommit        uint64
+	PrevHardEmpty         bool
+}
+
+func VerifNodeView_(n Node) VerifNodeView {
+	nn := n.(*node)
+	return VerifNodeView{NeedAdvance: nn.needAdvance, LastSteppedIndex: nn.lastSteppedIndex,
+		HavePrevLastUnstablei: nn.prevS.havePrevLastUnstablei, PrevLastUnstablei: nn.prevS.prevLastUnstablei,
+		PrevLastUnstablet: nn.prevS.prevLastUnstablet, PrevSnapi: nn.prevS.prevSnapi,
+		PrevHardCommit: nn.prevS.prevHardSt.Commit, PrevHardEmpty: IsEmptyHardState(nn.prevS.prevHardSt)}
+}
+
+// VerifRestartNode is RestartNode over ms with a hard state {Term: 1, Commit: commit} and no peers: no
+// message, tick or proposal is ever enqueued by the harness, so Term/Vote/SoftState stay constant and
+// StepNode / Advance exercise exactly the log-related bookkeeping. Returns the node and its raftLog.
+func VerifRestartNode(ms *MemoryStorage, logger Logger, maxNext uint64, commit uint64) (Node, *VerifLog) {
+	ms.SetHardState(pb.HardState{Term: 1, Commit: commit})
+	c := &Config{ID: 1, Group: pb.Group{NodeId: 1, GroupId: 1, RaftReplicaId: 1, Name: "g"}, ElectionTick: 10,
+		HeartbeatTick: 1, Storage: ms, MaxSizePerMsg: maxNext, MaxCommittedSizePerReady: maxNext,
+		MaxInflightMsgs: 16, Logger: logger}
+	n := RestartNode(c)
+	return n, &VerifLog{l: verifRaft(n).raftLog, ms: ms}
+}
+
+// ---------------------------------------------------------------------------------------------
+// RocksStorage index bookkeeping (protocol `raftlog`, ops rs.*)
+
+// VerifRocksReset empties the storage: no snapshot, no hard state, only the dummy entry, caches cleared.
+func VerifRocksReset(rs *RocksStorage) {
+	rs.Lock()
+	rs.snapshot = pb.Snapshot{}
+	rs.hardState = pb.HardState{}
+	rs.Unlock()
+	if err := rs.reset(make([]pb.Entry, 1)); err != nil {
+		panic("verif: RocksStorage.reset: " + err.Error())
+	}
+}
+
+// VerifRocksRaw is the raw state of a RocksStorage: the two caches, the snapshot meta and every entry in the DB.
+type VerifRocksRaw struct {
+	CFirst, CLast, SnapIndex, SnapTerm uint64
+	Ents                               []pb.Entry
+}
+
+func VerifRocksDump(rs *RocksStorage) VerifRocksRaw {
+	rs.Lock()
+	r := VerifRocksRaw{CFirst: rs.firstIndex, SnapIndex: rs.snapshot.Metadata.Index, SnapTerm: rs.snapshot.Metadata.Term}
+	rs.Unlock()
+	r.CLast = rs.lastIndexCached()
+	es, err := rs.allEntries(0, ^uint64(0), ^uint64(0))
+	if err != nil {
+		panic("verif: RocksStorage.allEntries: " + err.Error())
+	}
+	r.Ents = es
+	return r
+}
+
+// VerifIsNotFound tells errNotFound from other errors.
+func VerifIsNotFound(err error) bool { return err == errNotFound }
+
+// ---------------------------------------------------------------------------------------------
+// protocol `rocksvote`: a follower node over an arbitrary IExtRaftStorage in a fixed cluster
+
+// VerifGroups is the peer list 1..n of group 1 as the fork's Group records.
+func VerifGroups(n int) []*pb.Group {
+	var gs []*pb.Group
+	for i := 1; i <= n; i++ {
+		gs = append(gs, &pb.Group{NodeId: uint64(i), GroupId: 1, RaftReplicaId: uint64(i), Name: "g"})
+	}
+	return gs
+}
+
+// VerifRestartNodeOn is RestartNode of replica 1 of the voters 1..nPeers over st (which must not hold a
+// ConfState yet: the peers are passed the way raft's own tests pass them).
+func VerifRestartNodeOn(st IExtRaftStorage, logger Logger, nPeers int, preVote bool) Node {
+	c := &Config{ID: 1, Group: pb.Group{NodeId: 1, GroupId: 1, RaftReplicaId: 1, Name: "g"}, ElectionTick: 10,
+		HeartbeatTick: 1, Storage: st, MaxSizePerMsg: ^uint64(0), MaxCommittedSizePerReady: ^uint64(0),
+		MaxInflightMsgs: 16, Logger: logger, PreVote: preVote}
+	for _, g := range VerifGroups(nPeers) {
+		c.peers = append(c.peers, *g)
+	}
+	return RestartNode(c)
+}
+
+// VerifNodeLast is (lastIndex, lastTerm, committed, term, vote) of the node's raft.
+func VerifNodeLast(n Node) (li, lt, committed, term, vote uint64) {
+	r := verifRaft(n)
+	return r.raftLog.lastIndex(), r.raftLog.lastTerm(), r.raftLog.committed, r.Term, r.Vote
+}
